@@ -460,6 +460,7 @@ func init() {
 		ndocs := argInt(args, "docs", 6)
 		nfaults := argInt(args, "faults", 14)
 		nomit := argInt(args, "omit", 0) // per valid document: variants omitting one required-with-default member
+		ndeep := argInt(args, "deep", 0) // fault documents whose fault lies in a struct below >= 2 container levels
 		formats := strings.Split(args["formats"], ",")
 		if args["formats"] == "" {
 			formats = []string{"jsonschema"}
@@ -520,6 +521,9 @@ func init() {
 				if args["zerodefaults"] == "1" {
 					d = c08ZeroDefaults(d, tr)
 				}
+				if args["deepnest"] == "1" {
+					d = c08DeepNest(d, tr, i)
+				}
 				for _, f := range formats {
 					c := lab.AddCase(d, f)
 					cases = append(cases, &cs{c: c})
@@ -564,7 +568,11 @@ func init() {
 			}
 			fmt.Fprintf(out, "S\t%s\t%s\t%s\t%s\t%s\t%s\n", c.ID, c.ID, c.Defs.Root, c.Format, c.Defs.sexp(), virSchemas(c.IRGo))
 			r := newRng(seed*7919 + uint64(c.Idx)*31 + 5)
-			dg := newDocGen(c.Defs, r, defaultDocOpts())
+			dopts := defaultDocOpts()
+			if ndeep > 0 {
+				dopts.MaxDepth = 5 // populate the containers of three-level nestings
+			}
+			dg := newDocGen(c.Defs, r, dopts)
 			for n := 0; n < ndocs && !k.fixed; n++ {
 				vd := dg.validDoc()
 				k.docs = append(k.docs, c08Doc{"valid", "$", vd, 0})
@@ -596,6 +604,10 @@ func init() {
 					bi = len(k.docs)
 				}
 				k.docs = append(k.docs, c08Doc{fd.Kind, fd.Path, fd.Doc, bi})
+			}
+			for _, fd := range c08DeepFaults(c.Defs, dg, map[bool]int{false: ndeep, true: 0}[k.fixed]) {
+				k.docs = append(k.docs, c08Doc{"valid", "$", fd.Base, 0})
+				k.docs = append(k.docs, c08Doc{fd.Kind, fd.Path, fd.Doc, len(k.docs)})
 			}
 			for di, d := range k.docs {
 				js := d.doc.json()
